@@ -334,6 +334,54 @@ theorem c09_whfast_variational_keep_sync_preserves_internal (S : VSem T PJ X V A
   have h := vrel_sync_obs S c hk (vrel_sync S c hk x)
   exact ⟨h.1.symm, h.2.1.symm, h.2.2.1.symm, h.2.2.2.1.symm, h.2.2.2.2.symm⟩
 
+/-- **Variational centre of mass: every step advances it by exactly one `dt`, in every mode**
+    (repaired source, `c.vfix = true`).  Under the clock laws `VClock` (facts about the C
+    primitives: the Kepler / COM / jump / interaction steps do not move `p_jh[vc.index].pos`, the
+    explicit drift adds its coefficient, the transformations carry it between `p_jh` and the
+    variational particles): for *every* combination of safe_mode and keep_unsynchronized, every
+    internal flag state and every sequence of steps, synchronisations, read-only calls and
+    `recalculate_coordinates_this_timestep` settings, the variational particles the user sees have
+    received `2 · #steps` half drifts, before and after a final synchronize, and the copy in `p_jh`
+    has not fallen behind.  So in this respect keep_unsynchronized / safe_mode = 0 runs show what
+    the safe run shows (second statement: two configurations, same count). -/
+theorem c09_whfast_variational_com_drift_every_mode {S : VSem T PJ X V A VX VV VA} (K : VClock S)
+    (c c' : Config) (hv : c.vfix = true) (hv' : c'.vfix = true) (σ : List (Op Unit)) (n : Int)
+    (x : Flags × VSt PJ X V A VX VV VA) (h : VInv K n x) :
+    let a := vRun S c σ x
+    let a' := vRun S c' σ x
+    K.κx a.2.vpos = n + 2 * stepCount σ ∧
+    K.κx (vApply S c .synchronize a).2.vpos = n + 2 * stepCount σ ∧
+    VInv K (n + 2 * stepCount σ) a ∧
+    K.κx (vApply S c .synchronize a).2.vpos = K.κx (vApply S c' .synchronize a').2.vpos := by
+  intro a a'
+  have ha := vinv_run K c hv σ n x h
+  have ha' := vinv_run K c' hv' σ n x h
+  have hs := vinv_apply K c hv .synchronize _ _ ha
+  have hs' := vinv_apply K c' hv' .synchronize _ _ ha'
+  simp only [Op.isStep, Bool.false_eq_true, if_false, Int.add_zero] at hs hs'
+  exact ⟨ha.1, hs.1, ha, hs.1.trans hs'.1.symm⟩
+
+/-- **The source as found loses half of that drift with keep_unsynchronized** (finding
+    C09:whfast-var-keep-com-drift-lost; `vfix = false`): on the concrete clock, two steps and a
+    synchronize from a new simulation show 4 half drifts in safe mode and in unsafe mode without
+    keep_unsynchronized, but with keep_unsynchronized 3 before the synchronize and 2 after it — the
+    `N_var_config` block of part2 restores the cached `p_jh` and with it undoes its own
+    centre-of-mass drift, so `p_jh` advances by half a step per step.  The repaired variant
+    shows 4. -/
+theorem c09_whfast_variational_keep_loses_com_drift_as_found :
+    let run := fun (safe keep vfix : Bool) (σ : List (Op Unit)) =>
+      (vRun clockSem ⟨.jacobi, 0, 0, false, safe, keep, false, vfix⟩ σ
+        (⟨true, false, false⟩, ⟨0, (), (), (), 0, 0, (), 0⟩)).2.vpos
+    run true false false [.step, .step, .synchronize] = 4 ∧
+    run false false false [.step, .step, .synchronize] = 4 ∧
+    run false true false [.step, .step] = 3 ∧
+    run false true false [.step, .step, .synchronize] = 2 ∧
+    run false true true [.step, .step, .synchronize] = 4 := by
+  decide
+
+/-- the clock laws are satisfiable (non-vacuity of `VClock`) -/
+example : VClock clockSem := clockK
+
 end variational
 
 /-! ### MERCURIUS (kick first) and EOS (outer scheme) -/
@@ -647,7 +695,7 @@ example : MLaws demoMSem where
     hypothesis `hF18` of `c09_whfast_unsafe_sync_equals_safe_partial` cannot be derived from
     the laws of the primitives.  The search of rv/c09.py exhibits the same on the real code. -/
 theorem c09_F18_corrector2_not_inverse_in_model :
-    ¬ InverseOn demoSem (c2Blk ⟨.jacobi, 0, 0, true, false, false, false⟩) := by
+    ¬ InverseOn demoSem (c2Blk ⟨.jacobi, 0, 0, true, false, false, false, false⟩) := by
   intro h
   have := h ⟨(1, 0, 0), 0, 0, 0, (0, 0, 0), (0, 0, 0)⟩
   revert this
